@@ -100,8 +100,11 @@ func isInput(rel string) bool {
 }
 
 type cliDesign struct {
-	runs       int
-	name       string
+	runs int
+	name string
+	// out is the -o argument of the CLI relative to the module root ("" = no -o flag, output in
+	// the current directory, which is also where the design package and go.mod live)
+	out        string
 	refGen     dirState // `goa gen` in a fresh directory
 	refExample dirState // files added by `goa example` on top of it
 	svcDir     string   // first directory below gen/ that belongs to a service
@@ -153,14 +156,21 @@ func (x *cliExplorer) newSlot(design string, n int) (string, error) {
 	return dir, os.WriteFile(filepath.Join(dir, "design", "design.go"), src, 0o644)
 }
 
-// materialise makes dir hold exactly the state (plus the inputs).
-func materialise(dir string, s dirState) error {
+func (d *cliDesign) outDir(dir string) string { return filepath.Join(dir, filepath.FromSlash(d.out)) }
+
+// materialise makes the output directory hold exactly the state (plus, when the output
+// directory is the module root, the inputs).
+func (d *cliDesign) materialise(dir string, s dirState) error {
+	dir = d.outDir(dir)
+	if err := os.MkdirAll(dir, 0o755); err != nil {
+		return err
+	}
 	ents, err := os.ReadDir(dir)
 	if err != nil {
 		return err
 	}
 	for _, ent := range ents {
-		if isInput(ent.Name()) {
+		if d.out == "" && isInput(ent.Name()) {
 			continue
 		}
 		if err := os.RemoveAll(filepath.Join(dir, ent.Name())); err != nil {
@@ -182,7 +192,8 @@ func materialise(dir string, s dirState) error {
 	return nil
 }
 
-func readState(dir string) (dirState, error) {
+func (cd *cliDesign) readState(dir string) (dirState, error) {
+	dir = cd.outDir(dir)
 	s := dirState{}
 	err := filepath.WalkDir(dir, func(p string, d fs.DirEntry, err error) error {
 		if err != nil {
@@ -193,7 +204,7 @@ func readState(dir string) (dirState, error) {
 		if rel == "." {
 			return nil
 		}
-		if isInput(rel) {
+		if cd.out == "" && isInput(rel) {
 			if d.IsDir() {
 				return filepath.SkipDir
 			}
@@ -218,7 +229,11 @@ func readState(dir string) (dirState, error) {
 
 // cli runs the real CLI in dir.
 func (x *cliExplorer) cli(d *cliDesign, dir, cmd string) (string, error) {
-	out, err, _ := runCmd(dir, x.e.env, 10*time.Minute, x.e.GoaCLI, cmd, "c09cli/design")
+	args := []string{cmd, "c09cli/design"}
+	if d.out != "" {
+		args = append(args, "-o", d.out)
+	}
+	out, err, _ := runCmd(dir, x.e.env, 10*time.Minute, x.e.GoaCLI, args...)
 	x.mu.Lock()
 	x.runs++
 	d.runs++
@@ -273,7 +288,15 @@ func (d *cliDesign) applyFileOp(s dirState, op int) (dirState, bool) {
 type CLICase struct {
 	Exploration string   `json:"exploration"` // "cli"
 	Design      string   `json:"design"`
+	Out         string   `json:"out"` // -o argument ("" = none)
 	Ops         []string `json:"ops"` // the history; the last operation is the one whose invariant failed
+}
+
+// CLITarget is one design of the directory-history exploration.
+type CLITarget struct {
+	Design string // directory below checks/c09/clidesigns
+	Out    string // -o argument relative to the module root, "" = none (output in the current directory)
+	Depth  int    // bound on the length of a history
 }
 
 type cliNode struct {
@@ -393,13 +416,16 @@ func (x *cliExplorer) runHistory(d *cliDesign, dir string, ops []string) ([][2]s
 			return nil, fmt.Errorf("unknown operation %q", name)
 		}
 		if op == opGen || op == opExample {
-			if err := materialise(dir, s); err != nil {
+			if err := d.materialise(dir, s); err != nil {
 				return nil, err
 			}
 			if out, err := x.cli(d, dir, name); err != nil {
+				if i == len(ops)-1 {
+					return [][2]string{{"C09 cli op=" + name + " command-fails", "goa " + name + " fails: " + clip(tail(out, 600), 600)}}, nil
+				}
 				return nil, fmt.Errorf("goa %s failed: %v\n%s", name, err, tail(out, 1500))
 			}
-			post, err := readState(dir)
+			post, err := d.readState(dir)
 			if err != nil {
 				return nil, err
 			}
@@ -420,13 +446,13 @@ func (x *cliExplorer) runHistory(d *cliDesign, dir string, ops []string) ([][2]s
 
 // reference computes the outputs of gen and of example in a fresh directory.
 func (x *cliExplorer) reference(d *cliDesign, dir string) error {
-	if err := materialise(dir, dirState{}); err != nil {
+	if err := d.materialise(dir, dirState{}); err != nil {
 		return err
 	}
 	if out, err := x.cli(d, dir, "gen"); err != nil {
 		return fmt.Errorf("goa gen (reference) failed: %v\n%s", err, tail(out, 3000))
 	}
-	g, err := readState(dir)
+	g, err := d.readState(dir)
 	if err != nil {
 		return err
 	}
@@ -440,7 +466,7 @@ func (x *cliExplorer) reference(d *cliDesign, dir string) error {
 	if out, err := x.cli(d, dir, "example"); err != nil {
 		return fmt.Errorf("goa example (reference) failed: %v\n%s", err, tail(out, 3000))
 	}
-	ex, err := readState(dir)
+	ex, err := d.readState(dir)
 	if err != nil {
 		return err
 	}
@@ -470,16 +496,17 @@ func (x *cliExplorer) reference(d *cliDesign, dir string) error {
 }
 
 // RunCLI is exploration 3 for the named designs up to the given depth (operations per history).
-func RunCLI(c *core.Ctx, e *Env, designs []string, depths []int) {
+func RunCLI(c *core.Ctx, e *Env, targets []CLITarget) {
 	x := &cliExplorer{c: c, e: e}
 	type summary struct {
-		States      int   `json:"states"`
-		Transitions int   `json:"transitions"`
-		CLIRuns     int   `json:"cli_runs"`
-		Depth       int   `json:"depth"`
-		PerLevel    []int `json:"new_states_per_level"`
-		GenFiles    int   `json:"reference_gen_files"`
-		ExFiles     int   `json:"reference_example_files"`
+		States      int    `json:"states"`
+		Transitions int    `json:"transitions"`
+		CLIRuns     int    `json:"cli_runs"`
+		Depth       int    `json:"depth"`
+		Out         string `json:"output_dir_flag"`
+		PerLevel    []int  `json:"new_states_per_level"`
+		GenFiles    int    `json:"reference_gen_files"`
+		ExFiles     int    `json:"reference_example_files"`
 	}
 	sums := map[string]*summary{}
 	var smu sync.Mutex
@@ -489,11 +516,11 @@ func RunCLI(c *core.Ctx, e *Env, designs []string, depths []int) {
 		par = 4
 	}
 	sem := make(chan struct{}, par)
-	for di, name := range designs {
+	for _, t := range targets {
 		wg.Add(1)
-		go func(name string, depth int) {
+		go func(name, out string, depth int) {
 			defer wg.Done()
-			d := &cliDesign{name: name}
+			d := &cliDesign{name: name, out: out}
 			// slots of this design
 			slots := make(chan string, par)
 			for k := 0; k < par; k++ {
@@ -513,7 +540,7 @@ func RunCLI(c *core.Ctx, e *Env, designs []string, depths []int) {
 				c.HarnessError("cli %s: %v", name, err)
 				return
 			}
-			sum := &summary{Depth: depth, GenFiles: len(d.refGen), ExFiles: len(d.refExample)}
+			sum := &summary{Depth: depth, Out: out, GenFiles: len(d.refGen), ExFiles: len(d.refExample)}
 			seen := map[string]bool{dirState{}.digest(): true}
 			frontier := []*cliNode{{state: dirState{}}}
 			c.State("cli|"+name+"|"+dirState{}.digest(), false)
@@ -550,19 +577,24 @@ func RunCLI(c *core.Ctx, e *Env, designs []string, depths []int) {
 							}
 							dir := <-slots
 							defer func() { slots <- dir }()
-							if err := materialise(dir, node.state); err != nil {
+							if err := d.materialise(dir, node.state); err != nil {
 								results[i*numOps+op] = succ{err: err}
 								return
 							}
 							out, err := x.cli(d, dir, opNames[op])
 							if err != nil {
 								c.Outcome("cli " + opNames[op] + ": command fails")
-								c.Violation("C09 cli op="+opNames[op]+" command-fails",
+								sig := "C09 cli op=" + opNames[op] + " command-fails"
+								c.Violation(sig,
 									fmt.Sprintf("design %s, history %v: goa %s fails: %s", name, ops, opNames[op], clip(tail(out, 600), 600)),
-									CLICase{"cli", name, ops}, nil)
+									CLICase{"cli", name, d.out, ops},
+									func() bool {
+										again, err := x.runHistory(d, dir, ops)
+										return err == nil && len(again) == 1 && again[0][0] == sig
+									})
 								return
 							}
-							post, err := readState(dir)
+							post, err := d.readState(dir)
 							if err != nil {
 								results[i*numOps+op] = succ{err: err}
 								return
@@ -575,7 +607,7 @@ func RunCLI(c *core.Ctx, e *Env, designs []string, depths []int) {
 							}
 							for _, f := range fails {
 								sig := f[0]
-								c.Violation(sig, fmt.Sprintf("design %s, history %v: %s", name, ops, f[1]), CLICase{"cli", name, ops},
+								c.Violation(sig, fmt.Sprintf("design %s, history %v: %s", name, ops, f[1]), CLICase{"cli", name, d.out, ops},
 									func() bool {
 										again, err := x.runHistory(d, dir, ops)
 										if err != nil {
@@ -629,7 +661,7 @@ func RunCLI(c *core.Ctx, e *Env, designs []string, depths []int) {
 			smu.Lock()
 			sums[name] = sum
 			smu.Unlock()
-		}(name, depths[di])
+		}(t.Design, t.Out, t.Depth)
 	}
 	wg.Wait()
 	c.Note("cli_runs_total", x.runsNow())
